@@ -396,7 +396,7 @@ def m4_get_transactions(S):
 FILTERS = ["none", "script_prefix", "script_len_range", "output_data_prefix", "output_data_exact", "output_data_partial", "output_data_len_range", "output_capacity_range", "block_range"]
 
 
-def run_get_cells(S, search_type, which, exact, limit_value, with_data, nrows=2, fname="get_cells"):
+def run_get_cells(S, search_type, which, exact, limit_value, with_data, nrows=2, fname="get_cells", pool=False):
     """one scenario of `get_cells`: the searched script kind, ONE filter of `FILTERS` present, exact or prefix mode; `nrows` rows of the live-cell index follow the start key"""
     f = [x for x in S.prog.funcs if x.kind == "fn" and x.short == fname and "indexer/src/service.rs" in x.name and "{closure" not in x.name]
     if len(f) != 1:
@@ -434,22 +434,32 @@ def run_get_cells(S, search_type, which, exact, limit_value, with_data, nrows=2,
     rng_usize = AggV((IntV(r0.t, "usize"), IntV(r1.t, "usize")), "[usize; 2]")
     rng_u64 = AggV((r0, r1), "[u64; 2]")
     rng_cap = AggV((AggV((r0,), "Capacity"), AggV((r1,), "Capacity")), "[Capacity; 2]")
-    mode_of = {"output_data_prefix": "Prefix", "output_data_exact": "Exact", "output_data_partial": "Partial"}
+    mode_of = {"output_data_prefix": "Prefix", "output_data_exact": "Exact", "output_data_partial": "Partial", "all": "Prefix"}
     fo = _struct("util/indexer/src/service.rs", "FilterOptions", {
-        "script_prefix": mk_option(True, OpaqueV("filter_script_prefix", "Vec<u8>"), "Option<Vec<u8>>") if which == "script_prefix" else none("Option<Vec<u8>>"),
-        "script_len_range": mk_option(True, rng_usize, "Option<[usize; 2]>") if which == "script_len_range" else none("Option<[usize; 2]>"),
+        "script_prefix": mk_option(True, OpaqueV("filter_script_prefix", "Vec<u8>"), "Option<Vec<u8>>") if which in ("script_prefix", "all") else none("Option<Vec<u8>>"),
+        "script_len_range": mk_option(True, rng_usize, "Option<[usize; 2]>") if which in ("script_len_range", "all") else none("Option<[usize; 2]>"),
         "output_data": mk_option(True, AggV((OpaqueV("filter_data", "Vec<u8>"), EnumV(smode.index(mode_of[which]), (), "IndexerSearchMode")), "(Vec<u8>, IndexerSearchMode)"), "Option<(Vec<u8>, IndexerSearchMode)>") if which in mode_of else none("Option<(Vec<u8>, IndexerSearchMode)>"),
-        "output_data_len_range": mk_option(True, rng_usize, "Option<[usize; 2]>") if which == "output_data_len_range" else none("Option<[usize; 2]>"),
-        "output_capacity_range": mk_option(True, rng_cap, "Option<[Capacity; 2]>") if which == "output_capacity_range" else none("Option<[Capacity; 2]>"),
-        "block_range": mk_option(True, rng_u64, "Option<[u64; 2]>") if which == "block_range" else none("Option<[u64; 2]>"),
+        "output_data_len_range": mk_option(True, rng_usize, "Option<[usize; 2]>") if which in ("output_data_len_range", "all") else none("Option<[usize; 2]>"),
+        "output_capacity_range": mk_option(True, rng_cap, "Option<[Capacity; 2]>") if which in ("output_capacity_range", "all") else none("Option<[Capacity; 2]>"),
+        "block_range": mk_option(True, rng_u64, "Option<[u64; 2]>") if which in ("block_range", "all") else none("Option<[u64; 2]>"),
         "with_data": BoolV(with_data)})
     sk = _struct(JT, "IndexerSearchKey", {
         "script": OpaqueV("search_script_json", "Script"), "script_type": EnumV(stype.index(search_type), (), "IndexerScriptType"),
         "script_search_mode": mk_option(True, EnumV(smode.index("Exact" if exact else "Prefix"), (), "IndexerSearchMode"), "Option<IndexerSearchMode>"),
         "filter": none("Option<IndexerSearchKeyFilter>"), "with_data": none("Option<bool>"), "group_by_transaction": none("Option<bool>")})
-    handle = _struct("util/indexer/src/service.rs", "IndexerHandle", {"store": OpaqueV("store", "RocksdbStore"), "pool": none("Option<Arc>"),
+    handle = _struct("util/indexer/src/service.rs", "IndexerHandle", {"store": OpaqueV("store", "RocksdbStore"), "pool": mk_option(True, OpaqueV("pool_handle", "Arc<RwLock<Pool>>"), "Option<Arc>") if pool else none("Option<Arc>"),
                                                                        "request_limit": ctx.int("request_limit", "usize"), "timeout_limit": OpaqueV("timeout", "Duration")})
     rows = [AggV((OpaqueV(f"row{k}_key", "Box<[u8]>"), OpaqueV(f"row{k}_value", "Box<[u8]>")), "(Box<[u8]>, Box<[u8]>)") for k in range(nrows)]
+    in_pool = [ctx.bool(f"row{k}_cell_is_consumed_by_a_pool_transaction") for k in range(nrows)]
+
+    def consumed_by_pool(ex, c_, a, d):
+        if "pool_guard" not in str(getattr(deref(ex, a[0]) if isinstance(a[0], RefV) else a[0], "name", "")):
+            raise Stop("pool test on something that is not the pool")
+        k = rowno(ex, a[1])
+        if getattr(deref(ex, a[1]) if isinstance(a[1], RefV) else a[1], "name", None) != f"row{k}_out_point":
+            raise Stop("pool test with something that is not the row's out-point")
+        used.append(("pool", None, k, list(ex.pc)))
+        return BoolV(in_pool[k].t)
 
     def index_from(ex, c_, a, d):
         k = rowno(ex, a[0])
@@ -596,6 +606,10 @@ def run_get_cells(S, search_type, which, exact, limit_value, with_data, nrows=2,
         (E.rx(r"^build_query_options$"), lambda ex, c_, a, d: (qopts.append((getattr(a[1], "disc", str(a[1])), getattr(a[2], "disc", str(a[2])))), 0)[1] or mk_result(True, AggV((OpaqueV("prefix", "Vec<u8>"), OpaqueV("from_key", "Vec<u8>"), OpaqueV("direction", "Direction"), ctx.int("skip", "usize")), "(Vec<u8>, Vec<u8>, Direction, usize)"), OpaqueV("qerr", "Error"), d)),
         (E.rx(r"IndexerSearchKey as TryInto<FilterOptions>>::try_into$"), lambda ex, c_, a, d: mk_result(True, fo, OpaqueV("ferr", "Error"), d)),
         (E.rx(r"RocksdbStore::inner$"), lambda ex, c_, a, d: ex.ctx.ref_to(OpaqueV("db", "DB"))),
+        (E.rx(r"<Arc<.*RwLock<.*Pool>> as Deref>::deref$"), lambda ex, c_, a, d: ex.ctx.ref_to(OpaqueV("pool_lock", "RwLock<Pool>"))),
+        (E.rx(r"RwLock::<.*Pool>::read$"), lambda ex, c_, a, d: mk_result(True, OpaqueV("pool_guard", "RwLockReadGuard<Pool>"), OpaqueV("poison", "PoisonError"), d)),
+        (E.rx(r"RwLockReadGuard<'_, .*Pool> as Deref>::deref$"), lambda ex, c_, a, d: ex.ctx.ref_to(OpaqueV("pool_guard.pool", "Pool"))),
+        (E.rx(r"Pool::is_consumed_by_pool_tx$"), consumed_by_pool),
         (E.rx(r"DB::snapshot$"), lambda ex, c_, a, d: OpaqueV("snapshot", d)),
         (E.rx(r"Snapshot<'_> as .*Iterate>::iterator::<"), iterator),
         (E.rx(r"<DBIterator<'_> as Iterator>::skip$"), lambda ex, c_, a, d: a[0]),
@@ -650,8 +664,11 @@ def run_get_cells(S, search_type, which, exact, limit_value, with_data, nrows=2,
             sp, ln = sp_lock[k].t, len_lock[k].t
         else:           # a cell without a type script fails a type-script prefix filter and has script length 0
             sp, ln = T.and_(has_type[k].t, sp_type[k].t), T.ite(has_type[k].t, len_type[k].t, 0)
-        passes.append({"none": True, "script_prefix": sp, "script_len_range": in_range(ln), "output_data_prefix": data_pre[k].t, "output_data_exact": T.not_(data_ne[k].t),
-                       "output_data_partial": data_find[k].t, "output_data_len_range": in_range(data_len[k].t), "output_capacity_range": in_range(cap[k].t), "block_range": in_range(bn[k].t)}[which])
+        table = {"none": True, "script_prefix": sp, "script_len_range": in_range(ln), "output_data_prefix": data_pre[k].t, "output_data_exact": T.not_(data_ne[k].t),
+                       "output_data_partial": data_find[k].t, "output_data_len_range": in_range(data_len[k].t), "output_capacity_range": in_range(cap[k].t), "block_range": in_range(bn[k].t)}
+        # several filters: a cell is answered iff it passes every one of them
+        table["all"] = T.and_(*[table[w] for w in ("script_prefix", "script_len_range", "output_data_prefix", "output_data_len_range", "output_capacity_range", "block_range")])
+        passes.append(T.and_(T.not_(in_pool[k].t) if pool else True, table[which]))
     return dict(ctx=ctx, ps=ps, gets=gets, qopts=qopts, prefixes=prefixes, used=used, inpre=inpre, oix=oix, bn=bn, txi=txi, passes=passes, nrows=nrows, other=other, cap=cap, has_tip=has_tip)
 
 
@@ -661,12 +678,14 @@ def m5_get_cells(S):
     ob = "C18.m5"
     CX = field_index(JT, "IndexerCell")
     kp = _enum_values("util/indexer/src/indexer.rs", "KeyPrefix")
-    scen = [(w, True, 2, False) for w in FILTERS] + [("none", False, 2, True), ("script_prefix", True, 1, True), ("block_range", True, 1, False)]
+    scen = [(w, True, 2, False, False) for w in FILTERS] + [("none", False, 2, True, False), ("script_prefix", True, 1, True, False), ("block_range", True, 1, False, False), ("none", True, 2, False, True), ("block_range", True, 2, False, True), ("all", True, 1, True, True)]
     for search_type in ("Lock", "Type"):
-        for which, exact, limit_value, with_data in scen:
-            R = run_get_cells(S, search_type, which, exact, limit_value, with_data)
+        for which, exact, limit_value, with_data, pool in scen:
+            R = run_get_cells(S, search_type, which, exact, limit_value, with_data, pool=pool, nrows=(1 if which == "all" else 2))
             ctx, ps = R["ctx"], R["ps"]
-            tag = f"{search_type}_{which}_{'exact' if exact else 'prefix'}_limit{limit_value}"
+            tag = f"{search_type}_{which}_{'exact' if exact else 'prefix'}_limit{limit_value}" + ("_pool" if pool else "")
+            if pool:
+                S.prove(ctx, ob, f"{tag}_every_scanned_cell_is_tested_against_the_pool_by_its_own_out_point", [], bool(any(t_ == "pool" for t_, *_ in R["used"])))
             lens = [_sym(ctx, r"len\.row%d_key[\w.]*" % k) for k in range(R["nrows"])]
             if exact:
                 pre = [T.ge(ctx.int("request_limit", "usize").t, limit_value), T.le(_sym(ctx, r"uf\.len_prefix_\w*"), 1 << 20), T.ge(_sym(ctx, r"uf\.len_prefix_\w*"), 0)]
@@ -717,6 +736,9 @@ def m5_get_cells(S):
                 goals.append(T.implies(p_.cond(), bool(got == sorted(got) and len(got) <= limit_value)))
             S.prove(ctx, ob, f"{tag}_every_answer_item_is_the_cell_of_one_row_with_its_out_point_coordinates_and_data_iff_asked", [], bool(shape))
             S.prove(ctx, ob, f"{tag}_the_answer_is_exactly_the_rows_under_the_prefix_that_pass_the_filter_in_scan_order", pre, T.and_(*goals) if goals else False)
+            if R["nrows"] == 1:
+                S.witness(ctx, ob, f"{tag}_reach_the_row_answered", pre, inc[0])
+                continue
             S.witness(ctx, ob, f"{tag}_reach_second_row_answered", pre, T.and_(inc[1], inc[0]) if limit_value >= 2 else T.and_(inc[1], T.not_(inc[0])))
 
 
@@ -727,12 +749,12 @@ def m6_get_cells_capacity(S):
     CC = field_index(JT, "IndexerCellsCapacity")
     kp = _enum_values("util/indexer/src/indexer.rs", "KeyPrefix")
     for search_type in ("Lock", "Type"):
-        for which, exact in [(w, True) for w in FILTERS] + [("none", False)]:
-            R = run_get_cells(S, search_type, which, exact, 2, False, fname="get_cells_capacity")
+        for which, exact, pool in [(w, True, False) for w in FILTERS] + [("none", False, False), ("none", True, True), ("all", True, True)]:
+            R = run_get_cells(S, search_type, which, exact, 2, False, fname="get_cells_capacity", pool=pool, nrows=(1 if which == "all" else 2))
             ctx, ps = R["ctx"], R["ps"]
-            tag = f"{search_type}_{which}_{'exact' if exact else 'prefix'}"
+            tag = f"{search_type}_{which}_{'exact' if exact else 'prefix'}" + ("_pool" if pool else "")
             lens = [_sym(ctx, r"len\.row%d_key[\w.]*" % k) for k in range(R["nrows"])]
-            capsum = [T.le(T.add(R["cap"][0].t, R["cap"][1].t), (1 << 64) - 1)]          # the total capacity of live cells fits u64 (issuance bound)
+            capsum = [T.le(T.add(R["cap"][0].t, R["cap"][-1].t), (1 << 64) - 1)]          # the total capacity of live cells fits u64 (issuance bound)
             if exact:
                 pre = capsum + [T.le(_sym(ctx, r"uf\.len_prefix_\w*"), 1 << 20), T.ge(_sym(ctx, r"uf\.len_prefix_\w*"), 0)]
             else:
@@ -750,7 +772,9 @@ def m6_get_cells_capacity(S):
                     c.append(T.eq(lens[k], T.add(_sym(ctx, r"uf\.len_prefix_\w*"), 16)))
                 c.append(R["passes"][k])
                 inc.append(T.and_(*c))
-            want = T.add(T.ite(inc[0], R["cap"][0].t, 0), T.ite(inc[1], R["cap"][1].t, 0))
+            want = 0
+            for k in range(R["nrows"]):
+                want = T.add(want, T.ite(inc[k], R["cap"][k].t, 0))
             goals, shape, some = [], True, []
             for p_ in returns(ps):
                 v = p_.value
@@ -774,7 +798,7 @@ def m6_get_cells_capacity(S):
                 goals.append(T.implies(p_.cond(), T.and_(R["has_tip"].t, T.eq(as_int(rec.fields[CC["capacity"]]), want))))
             S.prove(ctx, ob, f"{tag}_the_answer_carries_the_hash_and_number_of_the_newest_header_row", [], bool(shape and some))
             S.prove(ctx, ob, f"{tag}_the_capacity_is_the_sum_over_exactly_the_rows_under_the_prefix_that_pass_the_filter", pre, T.and_(*goals) if goals else False)
-            S.witness(ctx, ob, f"{tag}_reach_both_rows_counted", pre, T.and_(inc[0], inc[1], R["has_tip"].t, T.gt(R["cap"][0].t, 0), T.gt(R["cap"][1].t, 0)))
+            S.witness(ctx, ob, f"{tag}_reach_all_rows_counted", pre, T.and_(*inc, R["has_tip"].t, *[T.gt(c.t, 0) for c in R["cap"]]))
 
 
 # ------------------------------------------------------------------------------------------------ search key -> filter options, query options
